@@ -146,7 +146,7 @@ theorem c40_cache_only_events_not_durable (n : Node) (r : RawEvent) (ev : Event)
   simp only [hn]
   cases hl : n.leads ev.msg.ch with
   | false => simp
-  | true => rcases hty with h | h | h <;> simp only [h] <;> cases admit n.cache n.cap ev.msg <;> simp
+  | true => rcases hty with h | h | h <;> simp only [h] <;> cases admitSession n.cache n.cap ev.msg <;> simp
 
 example :
     let d : RawEvent := ⟨[103], 2, [109], [101, 49], [97], tyDelta, [], 1,
